@@ -33,8 +33,8 @@ EXPLANATION = (
 EXPLANATION_ADD = ' Additions: (SIB-expiry) view and model compute the expiry per segment; (SIB-reverse-index) both mirror the current hop/info index as (count - current) - 1; armed subtraction underflow in StandardPathView::try_reverse (dev).'
 EXPLANATION = EXPLANATION + EXPLANATION_ADD
 RESIDUAL = [
-    "equality of view and model answers at every position (value property)",
-    "reversal is an involution and preserves the logical position (value property)",
+    "equality of view and model answers at every position (value property) — decided only through the sibling rules SIB-expiry and SIB-reverse-index (same structure of the computation on both sides)",
+    "reversal is an involution (value property)",
 ]
 ASSUMPTIONS = [
     "external (std/tinyvec) callees not in the reviewed pure-plumbing table are assumed to write through &mut arguments",
